@@ -103,7 +103,7 @@ PROPS = {
     'C20': {'scenarios': scen('LifeC LifeS Pair1 PushC', ['P_C20_ResetRacesAreStreamErrors']),
             'lens': [(['r', 'o', 'e', 'q.rw', 'z.iw', 'z.closed', 'z.streams.by', 'z.hp'], S('recv', 'dlv'))]},
     'C21': {'scenarios': [dict(s, chunked=True) for s in scen('LifeS LifeC MiscC CloseS FrameS RawS RawC', [])],
-            'lens': [(['r', 'o', 'e', 'z.pend', 'z.hb'], S('recv', 'dlv'))]},
+            'lens': [(['r', 'o', 'e'], S('recv', 'dlv'))]},
     'C22': {'scenarios': scen('LifeC SetC MiscS Pair1 PushC PushS', ['P_C22_PushOnlyWhenAllowed']),
             'lens': [(['r', 'o', 'e'] + STATE_FSM, S('call:push', 'frame:PP')), (['r', 'e'], S('frame:HEADERS', 'frame:DATA'))]},
     'C23': {'scenarios': scen('MiscC MiscS', ['P_C23_PriorityChangesNothing']),
